@@ -56,9 +56,11 @@ func checkC01(s *spec.Schema, d interface{}) {
 	want := refValid(s, d)
 	obj := runFresh(s, d, reg)
 	verifObserve("valid", obj.valid)
-	verifAssert(obj.valid == want, "impl-agrees-with-draft4")
 	one := AgainstSchema(s, d, reg) == nil
-	verifAssert(one == obj.valid, "oneshot-agrees-with-validator-object")
+	if verifChecking("C01") { // under C06 these families are run for termination and panic-freedom only
+		verifAssert(obj.valid == want, "impl-agrees-with-draft4")
+		verifAssert(one == obj.valid, "oneshot-agrees-with-validator-object")
+	}
 	verifReach("end")
 }
 
